@@ -56,6 +56,27 @@ def rule_l1(ctx, facts):
                     if m in ne_reach:
                         bad = (m, desc, "is reachable on the edge where the head has changed")
                         break
+            if bad is None:
+                # no stale reads: a link of this bin that is used inside the critical section must have been loaded inside it
+                fl = flow(b)
+                for c in b.calls:
+                    if c.point not in r.points or b.is_cleanup(c.b):
+                        continue
+                    for a in c.args:
+                        x = op_root(a)
+                        if x is None or b.ty(x).get("base") not in ("reclaim::Shared", "node::Node", "node::TreeNode", "node::TreeBin", "node::BinEntry", "seize::Linked"):
+                            continue
+                        for rt in fl.roots_at(x, c.point):
+                            if rt[0] != "call":
+                                continue
+                            rc = b.call_at(rt[1])
+                            if is_link_load(rc) == "load" and rc.point not in r.points and not held_regions_at(b, rc.point):
+                                f = receiver_field(b, rc, 0)
+                                if f and all(adt.startswith("node::") for adt, _ in f) and dominates(b, rc.point, r.call.point):
+                                    bad = (c.point, "use of %s" % "/".join(sorted(n for _, n in f)),
+                                           "uses a link that was loaded at %s before the lock was taken (stale by the time the section runs)" % rc.span)
+                    if bad:
+                        break
             if bad:
                 ctx.inst("L1", b, what, b.span_at(bad[0]), False, "%s at %s %s (validation at %s)" % (bad[1], b.span_at(bad[0]), bad[2], b.term(v.switch)["span"]))
             else:
